@@ -3,7 +3,7 @@
 (* The log is totally ordered (one mutex): init (catalog, tasks), w (catalog write, logged before the put), r (a    *)
 (* reader step of some task; "list" carries the ids GetAllCollection returned), start / addp / dropc / dropp (calls *)
 (* on the recording channel manager), end (trace cut after the driver's quiescence protocol).  The acceptor keeps   *)
-(* the ghost variables of CatalogWatch.tla (catalog, ever, started, eff, added, droppedC, allOlder, newestL) and    *)
+(* the ghost variables of CatalogWatch.tla (catalog, ever, started, bad, added, droppedC, allOlder, newestL) and    *)
 (* requires the contract clauses: always OnlyCreated, OnlySelected, NoOlderStart; ListingHonoured at the listing    *)
 (* task's next step; CollsStarted / PartsAdded at the end.  Duplicate calls are accepted (idempotence of the real   *)
 (* manager is C04/C01's business).                                                                                  *)
@@ -28,7 +28,7 @@ InU(S) == S \subseteq Ids
 TInit == /\ tr \in 1..Len(Traces) /\ l = 1 /\ mustP = {}
          /\ cat0 = <<>> /\ coll = [id \in Ids |-> "none"] /\ part = [id \in Ids |-> "none"]
          /\ pc = 0 /\ cbuf = <<>> /\ pbuf = <<>> /\ cpos = 0 /\ ppos = 0 /\ older = {}
-         /\ started = {} /\ eff = {} /\ added = {} /\ droppedC = {} /\ ever = {} /\ everP = {}
+         /\ started = {} /\ bad = {} /\ added = {} /\ droppedC = {} /\ ever = {} /\ everP = {}
          /\ allOlder = {} /\ newestL = {} /\ nw = 0 /\ hist = <<>>
 
 Frame == UNCHANGED <<cat0, pc, cbuf, pbuf, cpos, ppos, older, nw, hist>>
@@ -45,7 +45,7 @@ EvInit(t, e) ==
        /\ coll' = cf /\ part' = pf
        /\ ever' = {id \in Ids : cf[id] \in CListed \cup {"tombstone"}}
        /\ everP' = {id \in Ids : pf[id] # "none"}
-       /\ UNCHANGED <<started, eff, added, droppedC, allOlder, newestL, mustP>>
+       /\ UNCHANGED <<started, bad, added, droppedC, allOlder, newestL, mustP>>
 
 EvWrite(e) ==
     LET id == <<e.c, e.i>> IN
@@ -54,7 +54,7 @@ EvWrite(e) ==
     /\ part' = [part EXCEPT ![id] = PartAfter(e.kind, @)]
     /\ ever' = IF e.kind = "ok" THEN ever \cup {id} ELSE ever
     /\ everP' = IF e.kind = "pnew" THEN everP \cup {id} ELSE everP
-    /\ UNCHANGED <<started, eff, added, droppedC, allOlder, newestL, mustP>>
+    /\ UNCHANGED <<started, bad, added, droppedC, allOlder, newestL, mustP>>
 
 EvStep(t, e) ==
     /\ \/ /\ e.kind = "list"
@@ -69,19 +69,19 @@ EvStep(t, e) ==
           /\ UNCHANGED <<allOlder, newestL>>
        \/ /\ e.kind \in {"openc", "openp"} /\ UNCHANGED <<allOlder, newestL, mustP>>
        \/ /\ e.kind = "startw" /\ ListingHonoured /\ UNCHANGED <<allOlder, newestL, mustP>>
-    /\ UNCHANGED <<coll, part, ever, everP, started, eff, added, droppedC>>
+    /\ UNCHANGED <<coll, part, ever, everP, started, bad, added, droppedC>>
 
 EvStart(e) == LET id == <<e.c, e.i>> IN
     /\ started' = started \cup {id}
-    /\ eff' = IF id \in droppedC THEN eff ELSE eff \cup {id}
+    /\ bad' = IF id \in allOlder \ droppedC THEN bad \cup {id} ELSE bad
     /\ UNCHANGED <<coll, part, ever, everP, added, droppedC, allOlder, newestL, mustP>>
 EvAddP(e) == LET id == <<e.c, e.i>> IN
     /\ added' = added \cup {id}
-    /\ UNCHANGED <<coll, part, ever, everP, started, eff, droppedC, allOlder, newestL, mustP>>
+    /\ UNCHANGED <<coll, part, ever, everP, started, bad, droppedC, allOlder, newestL, mustP>>
 EvDropC(e) ==
     /\ droppedC' = droppedC \cup IdsOf(e.ids)
-    /\ UNCHANGED <<coll, part, ever, everP, started, eff, added, allOlder, newestL, mustP>>
-EvOther == UNCHANGED <<coll, part, ever, everP, started, eff, added, droppedC, allOlder, newestL, mustP>>
+    /\ UNCHANGED <<coll, part, ever, everP, started, bad, added, allOlder, newestL, mustP>>
+EvOther == UNCHANGED <<coll, part, ever, everP, started, bad, added, droppedC, allOlder, newestL, mustP>>
 
 \* partitions whose loss the known finding explains: seen only through the watch, and some task does not select the slot
 Eaten(t) == {id \in Ids : id \notin mustP /\ \E x \in TTasks(t) : id[1] \notin ToSet(x.sel)}
